@@ -108,8 +108,20 @@ func (r *c18run) onCall(c *sim.Call) {
 		}
 		r.finished[who] = c.Name == "Receive"
 	case c.EncBef && c.EncAft:
-		completedAsAlice := c.Name == "Receive" && in != nil && in.Reveal != nil && in.Verified && outHasType(s, c, ref.TypeSignature)
-		if completedAsAlice {
+		// a Reveal Signature message accepted while encrypted replaces the session; the Signature message goes out
+		// with it, unless the call failed after the new keys were adopted (the fresh key pair could not be drawn)
+		gotReveal := c.Name == "Receive" && in != nil && in.Reveal != nil && in.Verified
+		completedAsAlice := gotReveal && outHasType(s, c, ref.TypeSignature)
+		if gotReveal && !completedAsAlice && c.Err != nil {
+			// the call failed on the way (randomness): either before the new keys were adopted (nothing happened, no
+			// event) or after (the session was replaced: StillSecure); both are consistent
+			if len(sec) == 1 && sec[0] == otr3.StillSecure {
+				r.sessions[who]++
+			} else if len(sec) > 0 {
+				r.o.Fail("C18/spurious-event", "%s raised %s in a failed %s", p.Name, secs, c.Name)
+				return
+			}
+		} else if completedAsAlice {
 			if len(sec) != 1 || sec[0] != otr3.StillSecure {
 				r.o.Fail("C18/events-still-secure", "%s completed a key exchange while encrypted but the security events were %s", p.Name, secs)
 				return
@@ -183,6 +195,11 @@ func (r *c18run) onCall(c *sim.Call) {
 			return
 		}
 		r.txOrder[who] = append(r.txOrder[who], tok)
+	}
+	if c.Name == "End" {
+		// End() closes the books: nothing said before it is "the most recent message" of whatever comes next,
+		// and a complaint of the peer about the old session is no licence to resend into a new one
+		r.lastTok[who], r.errSince[who] = "", false
 	}
 }
 
